@@ -256,4 +256,12 @@ def timer_polls_observed(ck, prog, P):
             ck.ob(P + ".timer-poll-observed", "%s" % b.npath.split("::")[-1], branched or returned, b, bb,
                   "the Poll returned by polling a timer is examined (branched on or returned): a discarded `Ready` means an already-expired deadline is never acted upon and no wake-up is registered for it")
     ck.anchor(P, n_tp, 2, "polls of dispatcher timers (init, head, keep-alive, shutdown)")
-
+    # (re-)arming installs a NEW Sleep that no task has polled yet: it must be polled with the task context on every path,
+    # whatever the state before (an already armed timer is replaced, and the replacement has no waker registered)
+    si = prog.one(r"^actix_http::h1::timer::TimerState::set_and_init$")
+    sets = [bb for bb, t in si.calls(r"TimerState::set$")]
+    inits = [bb for bb, t in si.calls(r"TimerState::init$")]
+    ck.anchor(P, len(sets), 1, "TimerState::set in set_and_init")
+    for bb in sets:
+        ok, wit = si.must_pass_after(bb, si.returns(), inits) if inits else (False, None)
+        ck.ob(P + ".arming-always-polls", "TimerState::set_and_init", ok, si, bb, "after storing the new timer it is polled once (init) on every path, also when a timer was already active", witness=si.path_lines(wit))
